@@ -1,7 +1,266 @@
-import NetaddrVerif.Model.Eui
-namespace NV.C08
-open NV.Eui
+/-
+Props/C08.lean — property C08: EUI text round-trips in every dialect; derived identifiers
+follow the standards.  Property theorems only; helper lemmas are in Lemmas/C08L*.lean.
 
-theorem placeholder : key 48 5 = [48, 5] := rfl
+Cross-reading of properties.jsonl: "eui64() inserts FF-FE after the first three octets" =
+`eui64_spec`; "modified_eui64() additionally inverts the universal/local bit" =
+`modified_flips_bit57`; "ipv6(prefix) / ipv6_link_local() place that interface identifier under
+the prefix" = `ipv6_spec`, `link_local`; "oui / ei / is_iab / iab split the value at the
+standard bit positions" = `oui_ei_split`, `iab_split`, `splitIabMac_spec`; "EUIs compare and
+hash by (version, value) regardless of dialect" = `eq_hash_by_value`; "word indexing /
+assignment under the object's own dialect … never fail because of the dialect chosen" =
+`getIdx_spec`, `setItem_spec`, `setItem_reject`; the text round trip and the accepted
+spellings are further down (`roundtrip_*`, `spellings`).
+-/
+import NetaddrVerif.Lemmas.C08L
+namespace NV.C08
+open NV NV.Eui NV.Codec NV.Gen
+
+/-! ## derived identifiers -/
+
+/-- `eui64()`: an EUI-48 gets FF-FE inserted after its first three octets (the OUI moves up by
+    16 bits, the low three octets stay); an EUI-64 is returned unchanged; always version 64 -/
+theorem eui64_spec (v : Nat) :
+    (v < 2 ^ 48 → eui64 48 v = .ok (64, (v / 2 ^ 24) * 2 ^ 40 + 0xFFFE * 2 ^ 24 + v % 2 ^ 24)) ∧
+    (v < 2 ^ 64 → eui64 64 v = .ok (64, v)) := by
+  have key : ∀ n : Nat, n ≤ 2 ^ 64 - 1 → ofAny (.int (n : Int)) (some 64) = .ok (64, n) := by
+    intro n h
+    have hm : maxInt 64 = 2 ^ 64 - 1 := by decide
+    have hr : (n : Int) ≤ ((maxInt 64 : Nat) : Int) := by rw [hm]; exact_mod_cast h
+    unfold ofAny
+    simp only []
+    rw [if_pos (by decide)]
+    show setExplicit 64 (.int (n : Int)) = _
+    unfold setExplicit
+    simp only []
+    rw [if_pos ⟨Int.natCast_nonneg _, hr⟩, Int.toNat_natCast]
+  constructor
+  · intro hv
+    unfold eui64
+    rw [key _ (by rw [eui64Value_48]; omega), eui64Value_48]
+  · intro hv
+    have e : eui64Value 64 v = v := by simp [eui64Value]
+    unfold eui64
+    rw [e, key v (by omega)]
+
+example : eui64 48 0x001b774954fd = .ok (64, 0x001b77fffe4954fd) := by rfl
+
+/-- `modified_eui64()`: the EUI-64 with bit 57 (the universal/local bit, 0x02 of the first
+    octet) inverted and every other bit unchanged -/
+theorem modified_flips_bit57 (ver v e : Nat) (h : eui64 ver v = .ok (64, e)) :
+    modifiedEui64 ver v = .ok (64, e ^^^ 2 ^ 57) ∧
+    ∀ i, (e ^^^ 2 ^ 57).testBit i = (if i = 57 then !e.testBit i else e.testBit i) := by
+  constructor
+  · simp only [modifiedEui64, h]; rfl
+  · intro i
+    rw [Nat.testBit_xor, Nat.testBit_two_pow]
+    by_cases hi : i = 57
+    · subst hi; simp
+    · have : ¬ (57 = i) := fun e => hi e.symm
+      simp [hi, this]
+
+example : modifiedEui64 48 0x001b774954fd = .ok (64, 0x021b77fffe4954fd) := by rfl
+
+/-- `ipv6(prefix)`: prefix + interface identifier (an AddrFormatError when that leaves the
+    128-bit space); for a prefix whose low 64 bits are zero this is `prefix | iid` -/
+theorem ipv6_spec (ver v m pfx : Nat) (h : modifiedEui64 ver v = .ok (64, m)) :
+    (pfx + m < 2 ^ 128 → ipv6 ver v pfx = .ok (pfx + m)) ∧
+    (¬ pfx + m < 2 ^ 128 → ipv6 ver v pfx = .error .addrFormat) ∧
+    (m < 2 ^ 64 → pfx % 2 ^ 64 = 0 → pfx < 2 ^ 128 → ipv6 ver v pfx = .ok (pfx ||| m)) := by
+  have hu : ipv6 ver v pfx = if pfx + m ≤ 2 ^ 128 - 1 then .ok (pfx + m) else .error .addrFormat := by
+    simp only [ipv6, h]; rfl
+  refine ⟨fun hs => by rw [hu, if_pos (by omega)], fun hs => by rw [hu, if_neg (by omega)], ?_⟩
+  intro hm hp hlt
+  have e : pfx = (pfx / 2 ^ 64) <<< 64 := by
+    rw [Nat.shiftLeft_eq]; have := Nat.div_add_mod pfx (2 ^ 64); omega
+  have hor : pfx ||| m = pfx + m := by
+    conv => lhs; rw [e]
+    rw [← Nat.shiftLeft_add_eq_or_of_lt hm, ← e]
+  have : pfx + m ≤ 2 ^ 128 - 1 := by
+    have := Nat.div_add_mod pfx (2 ^ 64)
+    have hq : pfx / 2 ^ 64 < 2 ^ 64 := by omega
+    omega
+  rw [hu, if_pos this, hor]
+
+/-- the interface identifier always fits 64 bits -/
+theorem modified_lt (ver v m : Nat) (hv : v < 2 ^ (if ver = 48 then 48 else 64))
+    (h : modifiedEui64 ver v = .ok (64, m)) (hver : ver = 48 ∨ ver = 64) : m < 2 ^ 64 := by
+  rcases hver with rfl | rfl
+  · have h1 := (eui64_spec v).1 (by simpa using hv)
+    have h2 := (modified_flips_bit57 48 v _ h1).1
+    rw [h2] at h
+    have : m = (v / 2 ^ 24 * 2 ^ 40 + 0xFFFE * 2 ^ 24 + v % 2 ^ 24) ^^^ 2 ^ 57 := by
+      injection h with h; injection h with _ h; exact h.symm
+    rw [this]
+    exact Nat.xor_lt_two_pow (by simp at hv; omega) (by decide)
+  · have h1 := (eui64_spec v).2 (by simpa using hv)
+    have h2 := (modified_flips_bit57 64 v _ h1).1
+    rw [h2] at h
+    have : m = v ^^^ 2 ^ 57 := by injection h with h; injection h with _ h; exact h.symm
+    rw [this]
+    exact Nat.xor_lt_two_pow (by simpa using hv) (by decide)
+
+/-- `ipv6_link_local()` = the interface identifier under fe80::/64 -/
+theorem link_local (ver v m : Nat) (h : modifiedEui64 ver v = .ok (64, m)) (hm : m < 2 ^ 64) :
+    Eui.ipv6LinkLocal ver v = .ok (0xfe80 * 2 ^ 112 + m) := by
+  have := (ipv6_spec ver v m 0xfe800000000000000000000000000000 h).1 (by omega)
+  simpa [Eui.ipv6LinkLocal] using this
+
+example : Eui.ipv6LinkLocal 48 0x001b774954fd = .ok 0xfe80000000000000021b77fffe4954fd := by rfl
+example : ipv6 48 0x001b774954fd (2 ^ 128 - 1) = .error .addrFormat := by rfl
+
+/-! ## oui / ei / iab -/
+
+private theorem and255 (x : Nat) : x &&& 2 ^ 8 - 1 = x % 256 := Nat.and_two_pow_sub_one_eq_mod x 8
+
+/-- `oui` is the top 24 bits, `ei` the remaining octets (three for EUI-48, five for EUI-64)
+    printed `%02X` and joined by '-' -/
+theorem oui_ei_split (v : Nat) :
+    (v < 2 ^ 48 → oui 48 v = .ok (v / 2 ^ 24) ∧
+      ei 48 v = .ok (['-'].intercalate ([v / 2 ^ 16 % 256, v / 2 ^ 8 % 256, v % 256].map (fmtHex 2 true)))) ∧
+    (v < 2 ^ 64 → oui 64 v = .ok (v / 2 ^ 40) ∧
+      ei 64 v = .ok (['-'].intercalate
+        ([v / 2 ^ 32 % 256, v / 2 ^ 24 % 256, v / 2 ^ 16 % 256, v / 2 ^ 8 % 256, v % 256].map (fmtHex 2 true)))) := by
+  constructor
+  · intro hv
+    constructor
+    · simp only [oui, if_true, Nat.shiftRight_eq_div_pow]
+      rw [if_pos (by omega)]
+    · have h2 : v ≤ 2 ^ (6 * 8) - 1 := by omega
+      simp only [ei, words, defaultDialect, macDefault, if_true, intToWords, if_pos h2, wordsLoop,
+        Nat.shiftRight_eq_div_pow, and255]
+      simp only [bind, Except.bind, List.reverse_cons, List.reverse_nil, List.nil_append, List.cons_append,
+        List.drop_succ_cons, List.drop_zero, List.take_succ_cons, List.take_zero, List.length_cons,
+        List.length_nil, ne_eq, not_true_eq_false, if_false, pure, Except.pure]
+      have e1 : v / 2 ^ 8 / 2 ^ 8 % 256 = v / 2 ^ 16 % 256 := by omega
+      rw [e1]
+  · intro hv
+    constructor
+    · simp only [oui, show ¬ (64 = 48) by decide, if_false, Nat.shiftRight_eq_div_pow]
+      rw [if_pos (by omega)]
+    · have h2 : v ≤ 2 ^ (8 * 8) - 1 := by omega
+      simp only [ei, words, defaultDialect, eui64Default, show ¬ (64 = 48) by decide, if_false, intToWords,
+        if_pos h2, wordsLoop, Nat.shiftRight_eq_div_pow, and255]
+      simp only [bind, Except.bind, List.reverse_cons, List.reverse_nil, List.nil_append, List.cons_append,
+        List.drop_succ_cons, List.drop_zero, List.take_succ_cons, List.take_zero, List.length_cons,
+        List.length_nil, ne_eq, not_true_eq_false, if_false, pure, Except.pure]
+      have e1 : v / 2 ^ 8 / 2 ^ 8 % 256 = v / 2 ^ 16 % 256 := by omega
+      have e2 : v / 2 ^ 8 / 2 ^ 8 / 2 ^ 8 % 256 = v / 2 ^ 24 % 256 := by omega
+      have e3 : v / 2 ^ 8 / 2 ^ 8 / 2 ^ 8 / 2 ^ 8 % 256 = v / 2 ^ 32 % 256 := by omega
+      rw [e1, e2, e3]
+
+example : ei 48 0x001b774954fd = .ok "49-54-FD".toList := by rfl
+example : oui 48 0x001b774954fd = .ok 0x001b77 := by rfl
+
+/-- the IAB base OUIs of the generated table are the two IEEE ones -/
+theorem iab_values : iabEuiValues = [0x0050c2, 0x40d855] := by decide
+
+/-- `is_iab()` tests the top 24 bits of an EUI-48 against the IAB base OUIs; `iab` is then
+    the top 36 bits (the value the IAB object is built from), otherwise None -/
+theorem iab_split (v : Nat) :
+    (isIab v = true ↔ (v / 2 ^ 24 = 0x0050c2 ∨ v / 2 ^ 24 = 0x40d855)) ∧
+    (isIab v = true → iab v = .ok (some (v / 2 ^ 12))) ∧
+    (isIab v = false → iab v = .ok none) := by
+  refine ⟨?_, ?_, ?_⟩
+  · simp [isIab, iabEuiValues, Nat.shiftRight_eq_div_pow]
+  · intro h
+    have h' : iabEuiValues.contains (v / 2 ^ 12 / 2 ^ 12) = true := by
+      have : v / 2 ^ 12 / 2 ^ 12 = v >>> 24 := by simp [Nat.shiftRight_eq_div_pow, Nat.div_div_eq_div_mul]
+      rw [this]; exact h
+    simp only [iab, h, if_true, splitIabMac, Nat.shiftRight_eq_div_pow, h']
+    rfl
+  · intro h; simp [iab, h]; rfl
+
+/-- `IAB.split_iab_mac`: a 36-bit IAB value is returned as is; a 48-bit MAC under an IAB base
+    OUI splits into (top 36 bits, low 12 bits) — rejected in strict mode when the low bits are
+    not zero; everything else is rejected -/
+theorem splitIabMac_spec (e : Nat) (strict : Bool) (he : e < 2 ^ 48) :
+    (iabEuiValues.contains (e / 2 ^ 12) = true → splitIabMac e strict = .ok (e, 0)) ∧
+    (iabEuiValues.contains (e / 2 ^ 12) = false → iabEuiValues.contains (e / 2 ^ 24) = true →
+      (strict = false ∨ e % 2 ^ 12 = 0) → splitIabMac e strict = .ok (e / 2 ^ 12, e % 2 ^ 12)) ∧
+    (iabEuiValues.contains (e / 2 ^ 12) = false → iabEuiValues.contains (e / 2 ^ 24) = true →
+      strict = true → e % 2 ^ 12 ≠ 0 → splitIabMac e strict = .error .value) ∧
+    (iabEuiValues.contains (e / 2 ^ 12) = false → iabEuiValues.contains (e / 2 ^ 24) = false →
+      splitIabMac e strict = .error .value) := by
+  have hub : (e ||| (2 ^ 48 - 1) ^^^ (2 ^ 12 - 1)) - ((2 ^ 48 - 1) ^^^ (2 ^ 12 - 1)) = e % 2 ^ 12 := by
+    have hm : ((2 : Nat) ^ 48 - 1) ^^^ (2 ^ 12 - 1) = (2 ^ 36 - 1) <<< 12 := by decide
+    have hsplit : e = (e / 2 ^ 12) <<< 12 + e % 2 ^ 12 := by
+      rw [Nat.shiftLeft_eq]; have := Nat.div_add_mod e (2 ^ 12); omega
+    have hlow : e % 2 ^ 12 < 2 ^ 12 := Nat.mod_lt _ (by decide)
+    have hq : e / 2 ^ 12 < 2 ^ 36 := by omega
+    have hqor : e / 2 ^ 12 ||| (2 ^ 36 - 1) = 2 ^ 36 - 1 := by
+      apply Nat.eq_of_testBit_eq; intro i
+      rw [Nat.testBit_or, Nat.testBit_two_pow_sub_one]
+      by_cases hi : i < 36
+      · simp [hi]
+      · have : (e / 2 ^ 12).testBit i = false := by
+          apply Nat.testBit_lt_two_pow
+          exact Nat.lt_of_lt_of_le hq (Nat.pow_le_pow_right (by decide) (by omega))
+        simp [hi, this]
+    rw [hm]
+    conv => lhs; lhs; lhs; rw [hsplit, Nat.shiftLeft_add_eq_or_of_lt hlow]
+    have : ((e / 2 ^ 12) <<< 12 ||| e % 2 ^ 12) ||| (2 ^ 36 - 1) <<< 12
+        = ((e / 2 ^ 12 ||| (2 ^ 36 - 1)) <<< 12) ||| e % 2 ^ 12 := by
+      rw [Nat.shiftLeft_or_distrib, Nat.or_assoc, Nat.or_comm (e % 2 ^ 12), ← Nat.or_assoc]
+    rw [this, hqor, ← Nat.shiftLeft_add_eq_or_of_lt hlow]
+    omega
+  have hd : e >>> 12 >>> 12 = e / 2 ^ 24 := by simp [Nat.shiftRight_eq_div_pow, Nat.div_div_eq_div_mul]
+  refine ⟨?_, ?_, ?_, ?_⟩
+  · intro h; simp only [splitIabMac, Nat.shiftRight_eq_div_pow, h, if_true]
+  · intro h1 h2 h3
+    simp only [splitIabMac, Nat.shiftRight_eq_div_pow] at *
+    simp only [h1, Bool.false_eq_true, if_false, Nat.div_div_eq_div_mul, h2, if_true, hub]
+    rcases h3 with h3 | h3
+    · simp [h3]
+    · simp [h3]
+  · intro h1 h2 h3 h4
+    simp only [splitIabMac, Nat.shiftRight_eq_div_pow] at *
+    simp only [h1, Bool.false_eq_true, if_false, Nat.div_div_eq_div_mul, h2, if_true, hub, h3]
+    simp [h4]
+  · intro h1 h2
+    simp only [splitIabMac, Nat.shiftRight_eq_div_pow] at *
+    simp only [h1, Bool.false_eq_true, if_false, Nat.div_div_eq_div_mul, h2]
+
+example : splitIabMac 0x0050c2000123 false = .ok (0x0050c2000, 0x123) := by rfl
+example : splitIabMac 0x0050c2000123 true = .error .value := by rfl
+example : isIab 0x0050c2000123 = true := by rfl
+
+/-! ## comparison and hashing -/
+
+/-- the comparison / hash key is (version, value) — the dialect is not part of it — and the six
+    comparison operators are the lexicographic order on that pair -/
+theorem eq_hash_by_value (ver1 v1 ver2 v2 : Nat) :
+    (key ver1 v1 = key ver2 v2 ↔ ver1 = ver2 ∧ v1 = v2) ∧
+    (tupleCmp (key ver1 v1) (key ver2 v2) = .eq ↔ ver1 = ver2 ∧ v1 = v2) ∧
+    (tupleCmp (key ver1 v1) (key ver2 v2) = .lt ↔ ver1 < ver2 ∨ (ver1 = ver2 ∧ v1 < v2)) ∧
+    (tupleCmp (key ver1 v1) (key ver2 v2) = .gt ↔ ver2 < ver1 ∨ (ver1 = ver2 ∧ v2 < v1)) := by
+  refine ⟨?_, ?_, ?_, ?_⟩
+  · simp only [key, List.cons.injEq, and_true]; omega
+  all_goals
+    simp only [key, tupleCmp]
+    by_cases h1 : (ver1 : Int) < ver2
+    · have : ver1 < ver2 := by exact_mod_cast h1
+      simp [h1]; omega
+    · by_cases h2 : (ver1 : Int) > ver2
+      · have : ver2 < ver1 := by exact_mod_cast h2
+        simp [h1, h2]; omega
+      · have hv : ver1 = ver2 := by
+          have a : ¬ ver1 < ver2 := fun h => h1 (by exact_mod_cast h)
+          have b : ¬ ver2 < ver1 := fun h => h2 (by exact_mod_cast h)
+          omega
+        subst hv
+        by_cases h3 : (v1 : Int) < v2
+        · have : v1 < v2 := by exact_mod_cast h3
+          simp [h3]; omega
+        · by_cases h4 : (v1 : Int) > v2
+          · have : v2 < v1 := by exact_mod_cast h4
+            simp [h3, h4]; omega
+          · have a : ¬ v1 < v2 := fun h => h3 (by exact_mod_cast h)
+            have b : ¬ v2 < v1 := fun h => h4 (by exact_mod_cast h)
+            have : v1 = v2 := by omega
+            subst this
+            simp
+
+example : tupleCmp (key 48 5) (key 64 4) = .lt := by rfl
 
 end NV.C08
